@@ -275,9 +275,18 @@ def _table_problems(job):
     if what == "legacy":
         mode = TokenizationMode[job["mode"]]
         prev = None
-        for g in range(1, 51):
+        # a vocabulary is a fixed function of (mode, max_grid_size): it must not depend on which other vocabularies were
+        # built before in the process - sizes are visited ascending, then descending, then in a scrambled order
+        order = list(range(1, 51)) + list(range(50, 0, -1)) + [12, 5, 3, 1, 7, 12, 2, 50, 9, 10, 4]
+        seen = {}
+        for pos, g in enumerate(order):
             t = MazeTokenizer(tokenization_mode=mode, max_grid_size=g)
             arr = list(t.token_arr)
+            if g in seen and arr != seen[g]:
+                return f"vocab-depends-on-history:MazeTokenizer({mode.name},g={g}) | the vocabulary differs from the one built earlier in the same process"
+            seen.setdefault(g, arr)
+            if pos >= 50:
+                prev = None
             if len(set(arr)) != len(arr):
                 return f"vocab-duplicates:MazeTokenizer({mode.name},g={g}) | duplicates"
             if any(t.tokenizer_map[tok] != k for k, tok in enumerate(arr)) or len(t.tokenizer_map) != len(arr):
